@@ -340,6 +340,12 @@ struct Route {
     rpki: Option<RpkiTable>,
 }
 
+/// `(tag x)` -> x (exactly one argument)
+fn one<'a>(t: &'a Term, tag: &str) -> Option<&'a Term> {
+    let a = t.tagged(tag)?;
+    if a.len() == 1 { Some(&a[0]) } else { None }
+}
+
 fn route_of(t: &Term) -> Option<Route> {
     let r = t.tagged("route")?;
     if r.len() != 9 {
@@ -399,12 +405,12 @@ fn route_of(t: &Term) -> Option<Route> {
     if abstract_attrs(&attrs) != aattrs {
         return None;
     }
-    let nh = opt_addr_of(r[3].tagged("nh")?.first()?)?;
-    let onh = opt_addr_of(r[4].tagged("onh")?.first()?)?;
-    let confed = r[5].tagged("confed")?.first()?.as_bool()?;
-    let laddr = addr_of(r[6].tagged("laddr")?.first()?)?;
-    let paddr = addr_of(r[7].tagged("paddr")?.first()?)?;
-    let rp = match r[8].tagged("rpki")?.first()?.as_atom()? {
+    let nh = opt_addr_of(one(&r[3], "nh")?)?;
+    let onh = opt_addr_of(one(&r[4], "onh")?)?;
+    let confed = one(&r[5], "confed")?.as_bool()?;
+    let laddr = addr_of(one(&r[6], "laddr")?)?;
+    let paddr = addr_of(one(&r[7], "paddr")?)?;
+    let rp = match one(&r[8], "rpki")?.as_atom()? {
         "none" => Rpki::None,
         "nf" => Rpki::NotFound,
         "valid" => Rpki::Valid,
@@ -711,8 +717,8 @@ fn actions_of(t: &Term) -> Option<Actions> {
         let a = &l[1..];
         match (k, a.len()) {
             ("nh", 1) => {
-                acts.nexthop = Some(if let Some(x) = a[0].tagged("addr") {
-                    NexthopAction::Address(addr_of(x.first()?)?)
+                acts.nexthop = Some(if a[0].tagged("addr").is_some() {
+                    NexthopAction::Address(addr_of(one(&a[0], "addr")?)?)
                 } else {
                     match a[0].as_atom()? {
                         "self" => NexthopAction::PeerSelf,
